@@ -8,11 +8,6 @@ package hsrv
 //@ type Server as s
 //@   nonnil sl, iob, och, defTmpl
 
-//@ func remoteHost(r) (h)
-//@   locals r h err
-//@   pure
-//@   trusted
-
 //@ func Server.requestLogger(s, r) (l)
 //@   locals s r sni
 //@   props C11
@@ -70,6 +65,7 @@ package hsrv
 //@ func Server.outputHandler(s, w, r)
 //@   locals s w r
 //@   props C01 C03
+//@   flows r.Body: Broker.ConnectOut
 //@   assumes body: r.Body != nil
 //@   ghost n int = 0
 //@   on enter Broker.ConnectOut(b, c, l, a, rr, k): assert(b == s.iob && rr == r.Body && k == r.PathValue(idParam) && c == r.Context() && a == remoteHost(r), "callshape"); n++
@@ -78,6 +74,7 @@ package hsrv
 //@ func Server.inOutHandler(s, w, r)
 //@   locals s w r rc err err
 //@   props C01 C06 C03 C11
+//@   flows r.Body: Broker.ConnectInOut
 //@   assumes body: r.Body != nil
 //@   ghost n int = 0
 //@   ghost duplex bool = false
@@ -88,6 +85,19 @@ package hsrv
 //@   on enter Broker.ConnectInOut(b, c, l, a, ww, rr): assert(b == s.iob && ww == w && rr == r.Body && c == r.Context(), "callshape"); assert(duplex, "shell_output_is_read_in_full_duplex_mode"); n++
 //@   ensures at_most_once: n <= 1
 //@   ensures{C11,C03} only_a_stream_that_cannot_run_full_duplex_is_turned_away_before_the_broker_which_keeps_the_records: n == 1 || dupErr != nil
+
+// remoteHost: the host part of the client's address exactly as net/http
+// reports it, or the whole address when it has no port; nothing is parsed,
+// canonicalised or replaced.
+//@ func remoteHost(r) (h)
+//@   locals r h err
+//@   props C10 C01 C09
+//@   pure
+//@   ghost hh string = ""
+//@   ghost se bool = false
+//@   ghost n int = 0
+//@   on call net.SplitHostPort(a) (x, p, e): assert(a == r.RemoteAddr && n == 0, "splits_the_clients_address_as_reported"); hh = x; se = e != nil; n++
+//@   ensures host_part_or_whole_address_verbatim: n == 1 && imp(!se, h == hh) && imp(se, h == r.RemoteAddr)
 
 // ---- static files (C09)
 //@ func Server.fileHandler(s, w, r)
@@ -207,6 +217,7 @@ package hsrv
 //@   ensures listen_failure_reported: imp(listenErr, err != nil)
 //@   ensures listener_closed_on_later_failure: imp(err != nil && !listenErr, nClose == 1) && imp(err == nil || listenErr, nClose == 0)
 //@   ensures fields: imp(err == nil, srv != nil && srv.l.Fingerprint == lfp && srv.oneShell == oneShell && srv.fdir == fdir && srv.tmplf == tmplf && srv.sl == sl && srv.iob == iob && srv.och == och && nListen == 1)
+//@   ensures callback_addresses_are_kept_exactly_as_the_user_gave_them: imp(err == nil, srv.cbAddrs == cbAddrs && forall(i, 0 <= i && i < len(cbAddrs), cbAddrs[i] == old(cbAddrs[i])))
 
 //@ func Server.printCallbackHelp(s)
 //@   locals s
